@@ -369,3 +369,10 @@ def run(ctx, R):
         'placement.objects.consumer:_get_consumer_by_uuid',
         'placement.objects.allocation:_get_allocations_by_consumer_uuid'])
     R.count('R6.5', n, 2)
+    from psa.rules import genstate
+    n = genstate.generation_writers(ctx, R, 'R6.6')
+    R.count('R6.6', n, 6)
+    n = sqlshape.shape_rule(ctx, R, 'R6.7', [
+        CONS_INCR,
+        'placement.objects.consumer:Consumer.update>_update_in_db'])
+    R.count('R6.7', n, 2)
